@@ -150,7 +150,7 @@ func seeds(kmax int, goVers []string, full, lean bool) []string {
 										sb.WriteString("replace d.com/w => ../w\n\n")
 									}
 									sb.WriteString(stmt(split, k, b2 || k-split > 1, false))
-									sb.WriteString("exclude (\n\tb.com/y v1.0.0\n\ta.com/x v1.10.0\n\ta.com/x v1.9.0\n)\n\nretract (\n\tv1.0.0\n\t[v1.1.0, v1.2.0]\n\tv1.3.0\n)\n")
+									sb.WriteString("exclude (\n\tb.com/y v1.0.0\n\ta.com/x v1.10.0\n\ta.com/x v1.9.0\n\ta.com/x v1.9.0-pre\n\ta.com/x v2.0.0+incompatible\n)\n\nretract (\n\tv1.0.0\n\t[v1.1.0, v1.2.0]\n\tv1.3.0\n\t[v1.1.0, v1.4.0]\n\tv1.3.0-rc.1\n)\n\nreplace (\n\tz.com/z => ../z\n\ta.com/x v1.0.0 => b.com/y v1.0.0\n\ta.com/x => ../a\n)\n")
 									out = append(out, sb.String())
 								}
 							}
